@@ -515,7 +515,8 @@ func EVAL(ctx context.Context, ast MalType, env EnvType) (res MalType, e error) 
 				return do(ctx, tryDo, 0, 0, env)
 			}()
 
-			defer func() { _, _ = do(ctx, finallyDo, 0, 0, env) }()
+			tryEnv := env // the catch clause rebinds env below; finally must not see the catch variable
+			defer func() { _, _ = do(ctx, finallyDo, 0, 0, tryEnv) }()
 
 			if e == nil {
 				return exp, nil
